@@ -435,6 +435,8 @@ static char *_parsestr(qlisttbl_t *tbl, const char *str) {
             free(varstr);
             free(value);
             value = s;
+            if (value == NULL)
+                return NULL;  // out of memory
 
             loop = true;
             break;
